@@ -144,6 +144,9 @@ func (s *recSectors) StoreSector(root types.Hash256, data *[proto4.SectorSize]by
 type fundAndSign struct {
 	w  *wallet.SingleAddressWallet
 	pk types.PrivateKey
+	// lastHash is the hash most recently signed with the renter key (a
+	// Byzantine host that countersigns whatever the renter agreed to needs it)
+	lastHash types.Hash256
 }
 
 func (fs *fundAndSign) FundV2Transaction(txn *types.V2Transaction, amount types.Currency) (types.ChainIndex, []int, error) {
@@ -154,7 +157,10 @@ func (fs *fundAndSign) ReleaseInputs(txns []types.V2Transaction) { fs.w.ReleaseI
 func (fs *fundAndSign) SignV2Inputs(txn *types.V2Transaction, toSign []int) {
 	fs.w.SignV2Inputs(txn, toSign)
 }
-func (fs *fundAndSign) SignHash(h types.Hash256) types.Signature { return fs.pk.SignHash(h) }
+func (fs *fundAndSign) SignHash(h types.Hash256) types.Signature {
+	fs.lastHash = h
+	return fs.pk.SignHash(h)
+}
 
 // rhpRig is a real rhp4.Server with real wallets and manager, the in-repo
 // reference contractor and sector store behind recording wrappers, and the
@@ -266,7 +272,7 @@ func newRHPRigN(e *sim.Env, inv string, ip simrhp.Interposer, twoNodes bool) *rh
 	r.hw = newWallet(e, inv, r.hostA, r.s, r.hst, &recSyncer{})
 	r.rw = newWallet(e, inv, r.renterA, r.rs, r.rst, &recSyncer{})
 	e.OnCleanup(func() { r.hw.Close(); r.rw.Close() })
-	r.signer = &fundAndSign{r.rw, r.renterKey}
+	r.signer = &fundAndSign{w: r.rw, pk: r.renterKey}
 
 	// fund both wallets
 	n := int(net.Network.MaturityDelay) + e.Range(4, 10)
